@@ -318,6 +318,7 @@ class Interp:
         self.case_log = []
         self.field_assumptions = {}
         self.snapshots = []
+        self.log_calls = False
         self.effects_ranges = []
         self.calls = []           # opaque / noted calls: (callee name, args values, line, loop)
 
@@ -817,11 +818,33 @@ class Interp:
         env2 = {}
         for p, a in zip(f["params"], e.get("args", [])):
             env2[p["id"]] = self.bind_param(p, a, env)
+        if self.log_calls:
+            snap = []
+            for p in f["params"]:
+                v = env2[p["id"]]
+                try:
+                    v = self.load(v) if isinstance(v, Ref) else v
+                except Unsupported:
+                    v = None
+                snap.append(self.copyval(v) if isinstance(v, (SmallMat, BlockVec)) else v)
+            self.calls.append({"name": f["name"], "fid": f["fid"], "args": snap, "line": e.get("line"), "env": env2,
+                               "loop": self.loop_stack[-1]["summary"] if self.loop_stack else None})
+            ci = len(self.calls) - 1
         self.depth += 1
         try:
             r = self.run_body(f, env2)
         finally:
             self.depth -= 1
+        if self.log_calls:
+            outs = []
+            for p in f["params"]:
+                v = env2[p["id"]]
+                try:
+                    v = self.load(v) if isinstance(v, Ref) else v
+                except Unsupported:
+                    v = None
+                outs.append(self.copyval(v) if isinstance(v, (SmallMat, BlockVec)) else v)
+            self.calls[ci]["after"] = outs
         return r
 
     def call_lambda(self, fid, e, env):
@@ -1157,12 +1180,10 @@ class Interp:
     # -- assignment / effects ------------------------------------------------------
     def record(self, target, key, op, value, node, delta=None):
         eff = Effect(target, key, op, value, list(self.guards), node.get("line") if isinstance(node, dict) else None, delta)
-        if self.loop_stack:
-            for ls in self.loop_stack:
-                pass
-            self.loop_stack[-1]["summary"].effects.append(eff)
+        frames = [ls for ls in self.loop_stack if not ls.get("comp_var")]
+        if frames:
             # effects inside nested loops are also visible from the outer summaries
-            for ls in self.loop_stack[:-1]:
+            for ls in frames:
                 ls["summary"].effects.append(eff)
         else:
             self.effects.append(eff)
